@@ -250,6 +250,22 @@ class _:
     raises = {e: (lambda o: True) for e in ("ValueError", "ChrNamerError", "TaggingError")}
 
 
+@contract("tola.assembly.assembly_stats.AssemblyStats.__init__", kind="init", properties=("C11", "C10"))
+class _:
+    # "the reported number of cuts / breaks / joins": the three counts start at zero, no input assembly is known yet,
+    # and the prefix used for the chromosome CSV is the one given
+    params = {"self": TRef("AssemblyStats"), "autosome_prefix": STR}
+    defaults = {"autosome_prefix": "SUPER_"}
+    modifies = staticmethod(lambda o: [("field", "AssemblyStats", f, o.self) for f in (
+        "autosome_prefix", "input_assembly", "cuts", "breaks", "joins", "per_assembly_stats", "assembly_scaffold_lengths")] + [("alloc",)])
+    ensures = staticmethod(lambda o, n, res: [
+        ("counts-start-at-zero", z3.And(n.self.cuts == 0, n.self.breaks == 0, n.self.joins == 0)),
+        ("prefix", n.self.autosome_prefix == o.autosome_prefix),
+        ("no-input-assembly-yet", n.self.input_assembly.is_none),
+        ("alloc-grows", n.alloc >= o.alloc),
+    ])
+
+
 @contract("tola.assembly.assembly_stats.AssemblyStats.make_stats", status="TRUSTED")
 class _:
     params = {"self": TRef("AssemblyStats"), "assemblies": ASMS}
